@@ -275,11 +275,11 @@ CONTEXTS = ['@\n', '(assert @)\n', DECLS + '(assert @)\n',
             DECLS + '@\n(assert (= x x))\n']
 
 
-def plan(tier):
+def plan(tier, seed=0):
     units = []
     depth = 3 if tier == 'thorough' else 2
     cap = 2500 if tier == 'thorough' else 120
-    for name, text in seeds.seeds(tier):
+    for name, text in seeds.seeds(tier, seed):
         c = cap if len(text) < 160 else max(25, cap * 160 // len(text))
         units.append(('graph', name, text, depth, c))
     for h in HEADS:
@@ -357,6 +357,9 @@ def real_part(rep):
                 tmp = os.path.join(d, f'tmp-{len(procs)}')
                 os.mkdir(tmp)
                 env = dict(os.environ, TMPDIR=tmp)
+                # every concurrent run gets its own output file
+                args = [os.path.join(tmp, 'out.smt2') if a == out else a
+                        for a in args]
                 p = subprocess.Popen(launcher + ['-j', '1'] + args,
                                      cwd=common.REPO, env=env,
                                      stdout=subprocess.PIPE,
@@ -379,7 +382,7 @@ def real_part(rep):
                                SIG_AT=str(k))
                     p = subprocess.Popen(
                         launcher + ['-j', '1', '--strategy', strat, ok_in,
-                                    out, sigcmd],
+                                    os.path.join(tmp, 'out.smt2'), sigcmd],
                         cwd=common.REPO, env=env,
                         stdout=subprocess.PIPE, stderr=subprocess.PIPE,
                         text=True, preexec_fn=_new_group)
@@ -423,7 +426,8 @@ def judge_real(rep, lname, cname, zero, usage, rc, out, err, tmp,
         if len(diag) != 1:
             bad('diagnostic', f'expected exactly one diagnostic line, got '
                 f'{len(diag)}: {diag[:4]}')
-    left = [x for x in os.listdir(tmp) if x.startswith('ddsmt-')]
+    left = [x for x in os.listdir(tmp) if x.startswith('ddsmt-')
+            or x.endswith('.tmp')]
     if left:
         bad('tmpdir-left', f'temporary directory left behind: {left}')
     rep.count('distinct_nontrivial')
@@ -431,7 +435,7 @@ def judge_real(rep, lname, cname, zero, usage, rc, out, err, tmp,
 
 def main(tier):
     rep = common.Reporter(PROP, 'model_checking', tier)
-    units = plan(rep.tier)
+    units = plan(rep.tier, rep.seed)
     parts = common.pmap(run_unit, units, init=_init)
     for p in parts:
         rep.merge(p)
